@@ -35,7 +35,9 @@ func RunInit(args []string, opts GlobalOptions) error {
 	if err := os.MkdirAll(target, 0755); err != nil {
 		return err
 	}
-	plansPath := filepath.Join(target, plansFileName)
+	// Materialise the log under the name every other command will use: a store that only
+	// has the legacy events.jsonl must keep using it, not be shadowed by an empty plans.jsonl.
+	plansPath := getEventsPath(target)
 	lockPath := filepath.Join(target, "lock")
 	if err := ensureFileExists(plansPath, 0644); err != nil {
 		return err
